@@ -188,6 +188,21 @@ def cellsize_binding(prog, rep, public, path, f0, kern, params, expect):
                     sp.it.stmt(n)
                 except AnalysisIncomplete:
                     pass
+        elif isinstance(n, ast.Assign) and len(n.targets) == 1 and isinstance(n.targets[0], (ast.Tuple, ast.List)) and \
+                all(isinstance(x_, ast.Name) for x_ in n.targets[0].elts) and any(x_.id in sp.it.env for x_ in n.targets[0].elts) and \
+                not (isinstance(n.value, ast.Call) and isinstance(prog.resolve_callable(public, public.module, n.value.func), Func)):
+            # the components re-bound together (`cx, cy = abs(cx), abs(cy)`): evaluated, or no longer known
+            names = {x.id for x in ast.walk(n.value) if isinstance(x, ast.Name) and x.id not in ('abs', 'float', 'np', 'numpy')}
+            done = False
+            if names and names <= set(sp.it.env):
+                try:
+                    sp.it.stmt(n)
+                    done = True
+                except AnalysisIncomplete:
+                    pass
+            if not done:
+                for x_ in n.targets[0].elts:
+                    sp.it.env.pop(x_.id, None)
     # actuals of the dispatch call bound to f0's params, then f0 -> kern call
     bind0 = {}
     actuals = []
@@ -249,6 +264,10 @@ def cellsize_binding(prog, rep, public, path, f0, kern, params, expect):
     for p, text in expect.items():
         want = Spec(prog, want_env).expr(text)
         got = vals.get(p)
+        if isinstance(got, Rat):
+            # cell sizes are lengths: the magnitude of a resolution component is that component
+            got = subst(got, lambda a: a.args[0] if isinstance(a, App) and a.name in ('abs', 'fabs') and len(a.args) == 1 and
+                        isinstance(a.args[0], Rat) and a.args[0] in (Rat.sym('cellsize_x'), Rat.sym('cellsize_y')) else None)
         ok = isinstance(got, Rat) and got == want
         rep.add('S7-bind', kern, entry, 'kernel parameter %s <- %s' % (p, show(got)), path.call.lineno, ok,
                 'parameter %s of %s must receive %s of the raster resolution' % (p, kern.qualname, text))
